@@ -142,6 +142,7 @@ type Machine struct {
 	CrossKind    string
 	CrossStats   *smt.Stats
 	CrossN       int
+	CrossUnknown int
 	knownW       map[string]*Violation
 	onPending    func([]Dec)
 	inIntrinsic  *ssa.Function
@@ -571,7 +572,7 @@ func (m *Machine) CrossStatsOrNew() *smt.Stats {
 
 // crossCheck re-decides an unsat assertion query on a second solver.
 func (m *Machine) crossCheck(neg *sym.Term, id string) {
-	s2, err := smt.Start(m.CrossKind, 120*time.Second, m.CrossStats)
+	s2, err := smt.Start(m.CrossKind, 600*time.Second, m.CrossStats)
 	if err != nil {
 		m.inconclusive = append(m.inconclusive, "cross solver: "+err.Error())
 		return
@@ -582,9 +583,16 @@ func (m *Machine) crossCheck(neg *sym.Term, id string) {
 	}
 	s2.Assert(neg)
 	r := s2.Check()
-	m.CrossN++
-	if r != smt.Unsat {
-		m.inconclusive = append(m.inconclusive, fmt.Sprintf("assert %s: primary solver says unsat, %s says %v", id, m.CrossKind, r))
+	switch r {
+	case smt.Unsat:
+		m.CrossN++ // re-decided with the same answer
+	case smt.Sat:
+		// the two solvers disagree: the verdict cannot be trusted
+		m.inconclusive = append(m.inconclusive, fmt.Sprintf("assert %s: primary solver says unsat, %s says sat", id, m.CrossKind))
+	default:
+		// the second solver did not finish (time-out): the primary verdict stands, the
+		// query is simply not counted as cross-checked
+		m.CrossUnknown++
 	}
 }
 
